@@ -339,3 +339,38 @@ Fixpoint crun_env (lk : bool) (g0 : group) (s : state) (ts : list thread) (evs :
 (* ---- triggerOnChain entered again after a pause (fork.current > fork.header): no removal, the
    remaining fork groups are added until the first refusal ---- *)
 Definition trigger_reentry (s : state) (rest : list group) : state * bool := add_all s rest.
+
+(* ---- inside the write critical sections: the state after the first k store writes of save / remove
+   (statement order; count is assigned with the 4th write, lastGroup after it).  No reader that takes
+   the read lock can see these states; a reader that does not take it can. ---- *)
+Definition save_sub (k : nat) (s : state) (g : group) : state :=
+  let c := count s in
+  let g' := set_height g c in
+  let p := st s in
+  {| st := {| groups := if (Nat.leb 1 k) then upd (groups p) (gid g) (Some g') else groups p;
+              gcur := if (Nat.leb 2 k) then Some (gid g) else gcur p;
+              idx := if (Nat.leb 3 k) then upd (idx p) c (Some (gid g)) else idx p;
+              gcnt := if (Nat.leb 4 k) then c + 1 else gcnt p;
+              sq := sq p |};
+     count := if (Nat.leb 4 k) then c + 1 else c;
+     last := last s |}.
+
+Definition remove_sub (k : nat) (s : state) (g : group) : state :=
+  match get_by_id s (gpre g) with
+  | None => s
+  | Some pg =>
+    let c := count s in
+    let p := st s in
+    {| st := {| groups := if (Nat.leb 1 k) then upd (groups p) (gid g) None else groups p;
+                gcur := if (Nat.leb 2 k) then Some (gid pg) else gcur p;
+                idx := if (Nat.leb 3 k) then upd (idx p) (c - 1) None else idx p;
+                gcnt := if (Nat.leb 4 k) then c - 1 else gcnt p;
+                sq := sq p |};
+       count := if (Nat.leb 4 k) then c - 1 else c;
+       last := last s |}
+  end.
+
+(* the states a reader holding the read lock can see in a schedule: write critical sections are single
+   steps of crun_env, so these are exactly the states after the prefixes of the schedule *)
+Definition locked_reader_state (lk : bool) (g0 : group) (s : state) (ts : list thread)
+  (evs : list event) (n : nat) : state := fst (crun_env lk g0 s ts (firstn n evs)).
